@@ -348,6 +348,8 @@ static void directed(std::vector<std::string> &lines) {
     bin(C, 1, { 1ULL << 40, 0, 0 }, 0, 1);
     bin(C, 1, { 2, 0, 1, 3, 1, 1, 0, one, two, three }, -1, -1, 5);    // shorter than the size field
     bin(C, 1, {}, -1, -1);
+    bin(C, 2, { 2, 0, 2, 0x0200000000000005ULL, 1, 0, one, two, three, one }, 1, 1);   // inconsistent nnz, empty row range: a zero-length read behind a seek to 2^60
+    bin(C, 1, { 2, 0, 2, (1ULL << 63) - 1, 1, 0, one, two }, 1, 1);
     bin(C, 2, { 1, 0, 1, 0, one, two });                               // complex value
     bin(C, 2, { 1, 0, 2, 1, 0, one, two, three, one });
     bin(C, 2, { 1, 0, 2, 1, 0, one, two, three });                     // half a complex value missing
@@ -363,6 +365,7 @@ static void directed(std::vector<std::string> &lines) {
     bin(DD, 1, { 1ULL << 32, 1ULL << 32 });                            // n*m wraps to 0
     bin(DD, 1, { (1ULL << 56) + 1, 256, one, two });                   // n*m wraps to 256
     bin(DD, 1, { 1ULL << 61, 8, one }, 0, 0);
+    bin(DD, 1, { 1ULL << 50, 1, one }, 1L << 50, 1L << 50);            // empty range far behind the end of the file
     bin(DD, 1, { M1, 1, one });
     bin(DD, 1, { 1ULL << 63, 0 });
     bin(DD, 1, { 1ULL << 40, 1 });
